@@ -387,3 +387,33 @@ def p3(ctx):
                           "every path to the deletion compares etag with the current one (or etag is None); mismatch cannot reach it",
                           "the deletion is reachable %s" % ("without the etag comparison" if not covered else "from the mismatch side of the etag comparison")))
     return obs
+
+
+@rule("C03", "M1", floor=3, kind="S",
+      desc="etag list grammar: etag_matches splits the header value on ',' (HTTP list separator), strips optional "
+           "white space of every element, accepts '*', and compares each element with the actual etag")
+def m1(ctx):
+    fi = ctx.func("xandikos.webdav.etag_matches")
+    obs = []
+    cond = fi.params[0]
+    splits = [n for n in walk_local(fi.node) if isinstance(n, ast.Call) and isinstance(n.func, ast.Attribute) and n.func.attr in ("split", "rsplit")
+              and dotted(n.func.value) == cond]
+    if not splits:
+        raise AnalysisError("etag_matches no longer splits its condition with str.split (unmodelled parser)")
+    for sp in splits:
+        sep = ctx.P.try_fold(fi.module, sp.args[0]) if sp.args else None
+        obs.append(ctx.ob(sep == ",", fi.qualname, "%s:%d" % (fi.module.rel, sp.lineno), "list split on ','",
+                          "separator %r" % sep, "etag_matches splits the header on %r: a list written without exactly that separator "
+                          "(e.g. '\"a\",\"b\"') is not recognised, so a listed etag does not match" % sep))
+    strips = [n for n in walk_local(fi.node) if isinstance(n, ast.Call) and isinstance(n.func, ast.Attribute) and n.func.attr == "strip"]
+    cmps = [n for n in walk_local(fi.node) if isinstance(n, ast.Compare)]
+    stripped_cmp = [c for c in cmps if any(isinstance(x, ast.Call) and isinstance(x.func, ast.Attribute) and x.func.attr == "strip" for x in ast.walk(c))]
+    # elements must be stripped before they are compared (directly or via a comprehension variable)
+    ok = bool(strips) and (bool(stripped_cmp) or any(isinstance(n, (ast.ListComp, ast.GeneratorExp, ast.SetComp)) and
+                                                     any(isinstance(x, ast.Call) and isinstance(x.func, ast.Attribute) and x.func.attr == "strip" for x in ast.walk(n.elt))
+                                                     for n in walk_local(fi.node)))
+    obs.append(ctx.ob(ok, fi.qualname, fi.where, "elements are stripped of optional white space", "strip() applied to each element",
+                      "etag_matches compares list elements without stripping the optional white space around them"))
+    star = any(isinstance(n, ast.Constant) and n.value == "*" for n in walk_local(fi.node))
+    obs.append(ctx.ob(star, fi.qualname, fi.where, "'*' is recognised", "literal '*' handled", "etag_matches no longer recognises '*'"))
+    return obs
